@@ -75,8 +75,11 @@ fn vio(acc: &mut Acc, p: &Pos, s: &str, what: String) {
 /// (b) the complete move-shape alphabet against the real `position` command in one state
 pub fn alphabet_in_state(p: &Pos, strings: &[String], acc: &mut Acc) {
     // small batches keep each session's transcript small (allocator-friendly under 16 threads)
-    let prefix = format!("position fen {} moves", p.fen6(false));
-    for chunk in strings.chunks(512) {
+    // the three FEN forms the reader accepts (six, four and five fields) take turns chunk by chunk: `moves` must be
+    // recognised after each of them
+    let forms = [p.fen6(false), p.fen4(false), format!("{} 0", p.fen4(false))];
+    for (k, chunk) in strings.chunks(512).enumerate() {
+        let prefix = format!("position fen {} moves", forms[k % 3]);
         alphabet_batch(p, &prefix, chunk, acc);
     }
 }
@@ -239,9 +242,13 @@ pub fn roundtrip_visit(ctx: &StateCtx, acc: &mut Acc) {
 
 /// (c) a bad string after a good one; a good command after a rejected one
 pub fn sequences_in_state(p: &Pos, acc: &mut Acc) {
-    let fen = p.fen6(false);
     let legal = p.legal();
-    for m1 in &legal {
+    for (k1, m1) in legal.iter().enumerate() {
+        let fen = match k1 % 3 {
+            0 => p.fen6(false),
+            1 => p.fen4(false),
+            _ => format!("{} 0", p.fen4(false)),
+        };
         let succ = p.apply(m1);
         let succ_legal: Vec<String> = succ.legal().iter().map(|m| m.uci()).collect();
         let mut bads: Vec<String> = legal.iter().map(|m| m.uci()).filter(|t| !succ_legal.contains(t)).take(3).collect();
